@@ -20,6 +20,7 @@
 #include <map>
 #include <thread>
 
+#include "filters/functionfilter.h"
 #include "logger.h"
 #include "sinks/filesink.h"
 #include "sinks/rotatingfilesink.h"
@@ -164,6 +165,11 @@ int main(int argc, char **argv)
             return FileSinkPtr::create(path);
         return RotatingFileSinkPtr::create(path, s["L"].toInt(), s["N"].toInt(), RotatingFileSink::Options(s["opts"].toInt()));
     };
+    const int filtered = scn["filtered"].toInt(-1);          // this sink sits behind a filter that rejects the fatal message
+    const QString fatalPrefix = scn["fatalPrefix"].toString();
+    auto gate = [&]() -> HandlerPtr {
+        return FunctionFilterPtr::create([fatalPrefix](const LogMessage &m) { return !m.message().startsWith(fatalPrefix); });
+    };
     if (config == "oneline") {
         const QJsonObject s = sinks.at(0).toObject();
         const QString path = QString::fromStdString(root) + "/" + s["sub"].toString() + "/" + s["file"].toString();
@@ -176,6 +182,8 @@ int main(int argc, char **argv)
             p->pipeline().append(SinkPtr(new BadFlushSink));
         for (int i = 0; i < sinks.size(); ++i) {
             SimplePipeline &child = p->pipeline();
+            if (i == filtered)
+                child.append(gate());
             child.append(makeSink(sinks.at(i).toObject()));
             if (i == sinks.size() - 2)
                 p = &child;
@@ -184,8 +192,15 @@ int main(int argc, char **argv)
     } else {
         if (scn["badflush"].toBool())
             logger << SinkPtr(new BadFlushSink);
-        for (const auto &v : sinks)
-            logger << makeSink(v.toObject());
+        for (int i = 0; i < sinks.size(); ++i) {
+            if (i == filtered) {
+                SimplePipeline &child = logger.pipeline();
+                child.append(gate());
+                child.append(makeSink(sinks.at(i).toObject()));
+            } else {
+                logger << makeSink(sinks.at(i).toObject());
+            }
+        }
         logger.installMessageHandler();
     }
     {
